@@ -152,8 +152,38 @@ func stReplay(raw json.RawMessage) Verdict {
 		return stPD(&c)
 	case "aux":
 		return stAux(&c)
+	case "geoscaled":
+		return stGeoScaled(&c)
 	}
 	stBad("unknown kind %q", c.Kind)
+	return pass()
+}
+
+// stGeoScaled: the spec's rule GeoMean(2^k1 .. 2^kn) = 2^(sum k / n) is independent of n; the
+// plan scales it to samples of hundreds of values of widely varying magnitude (Xs holds the
+// exponents, their sum is divisible by n).  Also: the result lies within [min, max].
+func stGeoScaled(c *stCase) Verdict {
+	n := len(c.Xs)
+	var sum int64
+	xs := make([]float64, n)
+	lo, hi := math.Inf(1), math.Inf(-1)
+	for i, k := range c.Xs {
+		sum += k
+		xs[i] = math.Ldexp(1, int(k))
+		lo, hi = math.Min(lo, xs[i]), math.Max(hi, xs[i])
+	}
+	if n == 0 || sum%int64(n) != 0 {
+		stBad("geoscaled case with non-integral mean exponent")
+	}
+	want := math.Ldexp(1, int(sum/int64(n)))
+	for _, g := range []struct {
+		how string
+		v   float64
+	}{{"Sample.GeoMean", stats.Sample{Xs: stCopy(xs)}.GeoMean()}, {"GeoMean", stats.GeoMean(stCopy(xs))}} {
+		if math.IsNaN(g.v) || math.IsInf(g.v, 0) || math.Abs(g.v-want) > 1e-9*want || g.v < lo*(1-1e-12) || g.v > hi*(1+1e-12) {
+			return fail("geomean-many-values", "%s of %d powers of two (exponents %d..%d, mean exponent %d) = %v, want %v", g.how, n, c.Min, c.Max, sum/int64(n), g.v, want)
+		}
+	}
 	return pass()
 }
 
